@@ -186,7 +186,9 @@ def gen_relations(rng, d):
         d['relations'] = [r]
         return ['rel-no-simple-job']
     d['relations'] = [r]
-    k = rng.below(16)
+    k = rng.below(24)
+    if k >= 16:
+        return gen_multi_shift_relation(rng, d, r)
     if k <= 2:
         return ['rel-valid']
     if k == 3:
@@ -270,6 +272,34 @@ def gen_relations(rng, d):
     return ['rel-with-reserved-job-id-in-plan']
 
 
+def gen_multi_shift_relation(rng, d, r):
+    """a vehicle with two shifts that DIFFER in having a break / reloads / an end, and a relation (mostly on shiftIndex 1) that
+    names the corresponding reserved id: valid when the named shift has the property, E1206 otherwise"""
+    T = c10_T()
+    v = [x for x in d['vehicles'] if r['vehicle_id'] in x['vehicle_ids']][0]
+
+    def shift(lo, hi):
+        return {'earliest': T(lo), 'latest': None, 'end': T(hi), 'breaks': None, 'reloads': None}
+    v['shifts'] = [shift(0, 9), shift(10, 22)]
+    prop = rng.choice(['break', 'reload', 'arrival', 'break', 'reload'])
+    holder = rng.below(2)
+    si = 1 if rng.chance(3, 4) else rng.choice([0, None])
+    for k, s in enumerate(v['shifts']):
+        lo = 0 if k == 0 else 10
+        if prop == 'break' and k == holder:
+            s['breaks'] = [['otw', [T(lo + 1), T(lo + 2)]]]
+        if prop == 'reload' and k == holder:
+            s['reloads'] = [{'times': None, 'resource': None}]
+        if prop == 'arrival' and k != holder:
+            s['end'] = None
+    base = [i for i in r['jobs'] if i not in RESERVED]
+    r['jobs'] = (['departure'] if rng.chance(1, 3) else []) + base + [prop]
+    r['shift_index'] = si
+    r['type'] = rng.choice(['any', 'sequence', 'strict'])
+    ok = (si or 0) == holder
+    return ['rel-multishift-%s-on-shift-%s-%s' % (prop, si, 'present' if ok else 'missing')]
+
+
 def c10_T():
     from props import c10
     return lambda h: c10.T(h * c10.H)
@@ -341,7 +371,7 @@ def gen_objectives(rng, d):
 
 
 def gen_routing(rng, d):
-    k = rng.below(9)
+    k = rng.below(13)
     n_loc = count_locations(d)
     profs = []
     for p in d['profiles']:
@@ -381,6 +411,27 @@ def gen_routing(rng, d):
         d['profiles'] = []
         d['vehicles'][0]['profile'] = 'car'
         return ['routing-matrix-but-no-profiles']
+    if k == 9:
+        d['loc_mode'] = 'mixed'                  # both location kinds, read WITHOUT matrices: E1502 + E1503, no approximation attempted
+        d['matrices'] = None
+        d['prevalidation'] = True
+        return ['nomatrix-mixed-locations']
+    if k == 10:
+        d['loc_mode'] = 'index'
+        d['matrices'] = None
+        d['prevalidation'] = True
+        return ['nomatrix-indices']
+    if k == 11:
+        d['matrices'] = None                     # coordinates, approximated matrices, explicit positive speeds
+        d['speeds'] = [rng.choice([1, 5, 20]) for _ in d['profiles']]
+        d['prevalidation'] = True
+        return ['nomatrix-coordinates-with-speed']
+    if k == 12:
+        d['loc_mode'] = rng.choice(['mixed', 'index'])
+        d['matrices'] = None
+        d['speeds'] = [rng.choice([0, -1, 5]) for _ in d['profiles']]      # speeds are not looked at when indices are present
+        d['prevalidation'] = True
+        return ['nomatrix-%s-with-any-speed' % d['loc_mode']]
     d['matrices'] = matrices(n_loc)
     d['profiles'] = d['profiles'] + [d['profiles'][0]]
     return ['routing-matrix-duplicate-profile']
@@ -436,6 +487,8 @@ def full_json(d, to_json):
                                   for r in d['relations']]
     if d.get('objectives') is not None:
         p['objectives'] = d['objectives']
+    for prof, sp in zip(p['fleet']['profiles'], d.get('speeds') or []):
+        prof['speed'] = sp
     return p
 
 
@@ -574,6 +627,21 @@ def compare_matrix(c, impl, model):
     return None if got in (('ok',), ('panic',)) else 'read: impl %s, model Ok (truncated matrix)' % (got,)
 
 
+def prevalidation_term(c):
+    """Gallina term for the step before validation when no matrix is supplied (map_to_problem_with_approx)"""
+    from coqterm import lst, string, zlist, boolean
+    d = c['doc']
+    has_idx = any(tuple(l)[0] == 'i' for l in d['_locs'])
+    return 'pre_validation_panics %s %s %s' % (boolean(has_idx), lst(d['profiles'], string), zlist(d.get('speeds') or []))
+
+
+def compare_prevalidation(c, impl, model):
+    panics = impl['read']['k'] == 'panic'
+    if (model == 'true') != panics:
+        return 'map_to_problem_with_approx: model says panic=%s, implementation %s %s' % (model, impl['read']['k'], impl['read'].get('msg', ''))
+    return None
+
+
 def matrix_panic_class(c, exp):
     n2 = count_locations(c['doc']) ** 2
     if exp != 'err' and any(l < n2 for l in exp[2]):
@@ -651,7 +719,8 @@ def oracle(c, impl):
             out.append({'class': 'validation-codes-differ-from-reference:missing=%s:extra=%s' % ([x for x in ref if x not in got], [x for x in got if x not in ref]),
                         'what': 'validate reported %s, reference (rules as documented / as transcribed) %s; %s' % (got, ref, lab)})
     if rd['k'] == 'panic':
-        causes = crash_causes(c['problem'], c.get('matrices'))
+        # the recorded crash classes describe documents that break no rule; a crash of a document the rules reject is something else
+        causes = crash_causes(c['problem'], c.get('matrices')) if not ref else []
         out = [o for o in out if not (causes and o['class'].startswith('validation-panics'))]
         out.append({'class': '+'.join(causes) if causes else 'read-panics-unexplained:' + lab, 'what': rd['msg'][:300]})
     elif ref:
